@@ -105,7 +105,13 @@ class ResampleAggregation(Blockwise):
 
     @functools.cached_property
     def _meta(self):
-        return self.frame._meta
+        # the schema of the aggregation, not of its input (size, ohlc, agg,
+        # count and mean change the columns or dtypes)
+        resample = meta_nonempty(self.frame._meta).resample(
+            self.rule, **self.kwargs or {}
+        )
+        meta = getattr(resample, self.how)(*self.how_args, **self.how_kwargs or {})
+        return make_meta(meta)
 
     def _blockwise_arg(self, arg, i):
         if isinstance(arg, BlockwiseDep):
